@@ -83,6 +83,21 @@ extern void mpt_text_init(MPT_STRUCT(text) *tx, const MPT_STRUCT(text) *from)
 	}
 	*tx = def_text;
 }
+/* replace content by a copy of the template; the target is kept when a string can not be duplicated */
+static int assignText(MPT_STRUCT(text) *to, const MPT_STRUCT(text) *from)
+{
+	MPT_STRUCT(text) tmp;
+	
+	mpt_text_init(&tmp, from);
+	if (from && ((from->_font && !tmp._font) || (from->_value && !tmp._value))) {
+		mpt_text_fini(&tmp);
+		return MPT_ERROR(BadOperation);
+	}
+	mpt_text_fini(to);
+	*to = tmp;
+	return 0;
+}
+
 /*!
  * \ingroup mptPlot
  * \brief set text properties
@@ -111,8 +126,9 @@ extern int mpt_text_set(MPT_STRUCT(text) *tx, const char *name, MPT_INTERFACE(co
 			if (len && from == tx) {
 				return 0;
 			}
-			mpt_text_fini(tx);
-			mpt_text_init(tx, len ? from : 0);
+			if ((type = assignText(tx, len ? from : 0)) < 0) {
+				return type;
+			}
 			return 0;
 		}
 		if ((len = mpt_string_pset(&tx->_value, src)) >= 0) {
@@ -140,8 +156,9 @@ extern int mpt_text_set(MPT_STRUCT(text) *tx, const char *name, MPT_INTERFACE(co
 			if (len && from == tx) {
 				return 0;
 			}
-			mpt_text_fini(tx);
-			mpt_text_init(tx, from);
+			if ((type = assignText(tx, from)) < 0) {
+				return type;
+			}
 			return 0;
 		}
 		return MPT_ERROR(BadType);
